@@ -133,6 +133,47 @@ pub fn drive(args: &HashMap<String, String>) {
     for i in 0..n {
         vals.push(g.value(1 + i % 5));
     }
+    // IntBoundaries: canonical integers where a printer switches notation or a reader switches arithmetic: +-2^k and
+    // their neighbours for the word sizes a parser might use, 10^j and its neighbours (where the digit count changes),
+    // the same values with a sign byte or zero padding (non-canonical spellings of the same number)
+    {
+        use num_bigint::BigInt;
+        let mut ints: Vec<BigInt> = vec![];
+        for k in [7u32, 8, 15, 16, 23, 24, 31, 32, 33, 53, 62, 63, 64, 65, 95, 96, 127, 128, 129, 255, 256, 257] {
+            let p = BigInt::from(1) << k;
+            for d in [-2i32, -1, 0, 1, 2] {
+                ints.push(&p + d);
+                ints.push(-(&p) + d);
+            }
+        }
+        let mut ten = BigInt::from(1);
+        for j in 1..=80u32 {
+            ten *= 10;
+            if j <= 24 || j % 7 == 0 || (37..=40).contains(&j) || (76..=79).contains(&j) {
+                for d in [-1i32, 0, 1] {
+                    ints.push(&ten + d);
+                    ints.push(-(&ten) + d);
+                }
+                // a value in the middle of the digit class (e.g. 93 * 10^(j-2))
+                ints.push(&ten * 93 / 100);
+            }
+        }
+        for (i, x) in ints.iter().enumerate() {
+            let canon = crate::val::int_bytes(x);
+            vals.push(V::A(canon.clone()));
+            match i % 4 {
+                0 => vals.push(V::cons(V::A(vec![1]), V::A(canon.clone()))),
+                1 => vals.push(V::list(&[V::A(canon.clone()), V::A(canon.clone())])),
+                2 => {
+                    // the same number with one more sign byte (a different atom)
+                    let mut padded = vec![if canon.first().map(|b| b & 0x80 != 0).unwrap_or(false) { 0xff } else { 0x00 }];
+                    padded.extend(&canon);
+                    vals.push(V::A(padded));
+                }
+                _ => {}
+            }
+        }
+    }
     let jobs: Vec<Value> = vals.iter().map(|v| json!({"op": "print", "value": v.to_json()})).collect();
     let cfg = PoolCfg { batch: 64, timeout: Duration::from_secs(20), ..PoolCfg::default() };
     let results = run_jobs(jobs, &cfg);
